@@ -317,6 +317,7 @@ type vFamily struct {
 	Depth  int
 	First  []vBlobSpec
 	Rest   []vBlobSpec
+	Levels [][]vBlobSpec // when set: the alphabet of the i-th blob (overrides First/Rest)
 	Dups   bool
 }
 
@@ -354,24 +355,30 @@ func vC11Families(tier string) []vFamily {
 	if tier != "thorough" {
 		pairSizes := []string{"1B", "S-1", "S", "S+1", "2S", "5S", "17S", "65S", "129S"}
 		return []vFamily{
-			{Name: "triples-small", Txs: []int{0, 1}, Groups: []string{"sep"}, Depth: 3, Dups: true,
-				First: vAlphaFixed("ABC", "1B:1", "S+1:0", "3S:1"), Rest: vAlphaFixed("ABC", "1B:1", "S+1:0", "3S:1")},
 			{Name: "triples-padding", Txs: all3, Groups: []string{"sep"}, Depth: 3, Dups: true,
 				First: vAlphaFixed("AB", "S:1", "17S:0", "65S:1"), Rest: vAlphaFixed("AB", "S:1", "17S:0", "65S:1")},
-			{Name: "pairs", Txs: []int{0, 2}, Groups: []string{"sep"}, Depth: 2, Dups: true,
-				First: vAlpha("B", both, pairSizes...), Rest: vAlpha("ABC", both, pairSizes...)},
+			// a 128-wide square (forced by a 4100-share blob in namespace C): the only width at which a
+			// blob preceded by layout padding can END in the row it started in, with another blob after it
+			{Name: "row-wider-than-a-padded-blob", Txs: []int{0, 1}, Groups: []string{"sep"}, Depth: 4,
+				Levels: [][]vBlobSpec{vAlphaFixed("C", "4100S:0"), vAlphaFixed("A", "S:0"), vAlphaFixed("A", "65S:1"), vAlphaFixed("A", "S:0", "1B:1")}},
 			{Name: "pairs-one-tx", Txs: []int{1}, Groups: []string{"one"}, Depth: 2, Dups: true,
 				First: vAlpha("B", both, pairSizes...), Rest: vAlpha("ABC", both, pairSizes...)},
 			{Name: "triples-one-namespace", Txs: all3, Groups: []string{"one"}, Depth: 3, Dups: true,
 				First: vAlphaFixed("A", "S:0", "65S:0", "129S:1"), Rest: vAlphaFixed("A", "S:0", "65S:0", "129S:1")},
+			{Name: "pairs", Txs: []int{0, 2}, Groups: []string{"sep"}, Depth: 2, Dups: true,
+				First: vAlpha("B", both, pairSizes...), Rest: vAlpha("ABC", both, pairSizes...)},
+			{Name: "triples-small", Txs: []int{0, 1}, Groups: []string{"sep"}, Depth: 3, Dups: true,
+				First: vAlphaFixed("ABC", "1B:1", "S+1:0", "3S:1"), Rest: vAlphaFixed("ABC", "1B:1", "S+1:0", "3S:1")},
 		}
 	}
 	var allSizes []string
 	for k := range vSizes {
-		allSizes = append(allSizes, k)
+		if k != "4100S" {
+			allSizes = append(allSizes, k)
+		}
 	}
 	sort.Strings(allSizes)
-	med := []string{"1B", "S", "S+1", "2S", "5S", "16S", "17S", "65S"}
+	med := []string{"1B", "S", "S+1", "2S", "5S", "17S", "65S"}
 	return []vFamily{
 		{Name: "pairs-all-sizes", Txs: all3, Groups: []string{"sep", "one"}, Depth: 2, Dups: true,
 			First: vAlpha("ABC", both, allSizes...), Rest: vAlpha("ABC", both, allSizes...)},
@@ -380,11 +387,14 @@ func vC11Families(tier string) []vFamily {
 		{Name: "triples-free-grouping", Txs: []int{0, 2}, Groups: []string{"free"}, Depth: 3, Dups: true,
 			First: vAlphaFixed("AB", "S:1", "17S:0", "65S:1"), Rest: vAlphaFixed("AB", "S:1", "17S:0", "65S:1")},
 		{Name: "quads", Txs: all3, Groups: []string{"sep"}, Depth: 4, Dups: true,
-			First: vAlphaFixed("ABC", "S:0", "S+1:1", "17S:0", "65S:1"), Rest: vAlphaFixed("ABC", "S:0", "S+1:1", "17S:0", "65S:1")},
+			First: vAlphaFixed("AB", "S:0", "S+1:1", "17S:0", "65S:1"), Rest: vAlphaFixed("AB", "S:0", "S+1:1", "17S:0", "65S:1")},
 		{Name: "triples-wide", Txs: all3, Groups: []string{"one"}, Depth: 3, Dups: true,
 			First: vAlphaFixed("AB", "S:0", "65S:0", "129S:1", "257S:0"), Rest: vAlphaFixed("AB", "S:0", "65S:0", "129S:1", "257S:0")},
 		{Name: "quints", Txs: all3, Groups: []string{"sep"}, Depth: 5, Dups: true,
 			First: vAlphaFixed("AB", "S+1:1", "65S:0"), Rest: vAlphaFixed("AB", "S+1:1", "65S:0")},
+		{Name: "row-wider-than-a-padded-blob", Txs: all3, Groups: []string{"sep"}, Depth: 4,
+			Levels: [][]vBlobSpec{vAlphaFixed("C", "4100S:0"), append(vAlphaFixed("A", "S:0", "65S:1"), vAlphaFixed("B", "S:0")...),
+				vAlphaFixed("A", "65S:1", "S:0", "129S:0"), append(vAlphaFixed("A", "S:0", "1B:1"), vAlphaFixed("B", "S:1")...)}},
 	}
 }
 
@@ -406,6 +416,9 @@ func (s *vBlkSys) Enabled() []string {
 	al := s.fam.Rest
 	if len(s.spec.Blobs) == 0 {
 		al = s.fam.First
+	}
+	if s.fam.Levels != nil {
+		al = s.fam.Levels[len(s.spec.Blobs)]
 	}
 	var ev []string
 	for _, a := range al {
@@ -622,7 +635,7 @@ func TestVerifC11(t *testing.T) {
 		}
 		famReport[fam.Name] = map[string]any{
 			"depth": fam.Depth, "ordinary_txs": fam.Txs, "grouping": fam.Groups, "first_alphabet": vSpecNames(fam.First),
-			"rest_alphabet": vSpecNames(fam.Rest), "dup_events": fam.Dups, "states": fStates, "transitions": fTrans, "completed": fComplete,
+			"rest_alphabet": vSpecNames(fam.Rest), "level_alphabets": vLevelNames(fam.Levels), "dup_events": fam.Dups, "states": fStates, "transitions": fTrans, "completed": fComplete,
 		}
 	}
 	rep.Count(evals, nontrivial, states, transitions)
@@ -640,6 +653,14 @@ func TestVerifC11(t *testing.T) {
 	if rep.Finish() > 0 {
 		t.Fail()
 	}
+}
+
+func vLevelNames(l [][]vBlobSpec) [][]string {
+	var out [][]string
+	for _, a := range l {
+		out = append(out, vSpecNames(a))
+	}
+	return out
 }
 
 func vSpecNames(a []vBlobSpec) []string {
